@@ -165,9 +165,9 @@ def starLoop (f : Frame → PState → PRes) : Nat → Frame → PState → List
     | r => r
 
 /-- `parseLitMatcher` inner loop: compare rune by rune, reading on. -/
-def litLoop (rule : String) : List Nat → PState → Option PState
-  | [], st => some st
-  | want :: ws, st => if st.pt.rn != want then none else litLoop rule ws (st.read rule)
+def litLoop (rule : String) : List Nat → PState → PState × Bool
+  | [], st => (st, true)
+  | want :: ws, st => if st.pt.rn != want then (st, false) else litLoop rule ws (st.read rule)
 
 def classMatches (env : Env) (chars ranges : List Nat) (classes : List String) (cur : Nat) :
     Option Bool :=
@@ -246,9 +246,10 @@ def eval (env : Env) (g : Grammar) (max : Nat) :
       | r => r
     | .lit val ignoreCase =>
       if ignoreCase then .abort st "unsupported: ignoreCase literal" else
+      -- a failed literal restores the position; errors logged by `read` on the way stay
       match litLoop rule val st with
-      | some st' => .ok st' fr (.bytes (sliceFrom st.pt st'.pt)) true
-      | none => .ok st fr .nil false
+      | (st', true) => .ok st' fr (.bytes (sliceFrom st.pt st'.pt)) true
+      | (st', false) => .ok { st' with pt := st.pt } fr .nil false
     | .oneOrMore inner =>
       match eval env g max fuel rule inner [] st with
       | .ok st' _ v true => starLoop (eval env g max fuel rule inner) fuel fr st' [v]
